@@ -23,6 +23,9 @@ pub struct Cfg {
     /// an execute with funds starts (right after its marker) by asking for the callee's own balance in the
     /// first attached denomination
     pub probe_funds: bool,
+    /// bodies often end with `Write k v; Remove k` (sometimes `…; Write k w`) on a pool key, which is usually
+    /// already committed: the overwrite-then-delete shape a write cache can get wrong
+    pub set_remove_bias: bool,
 }
 impl Default for Cfg {
     fn default() -> Self {
@@ -40,6 +43,7 @@ impl Default for Cfg {
             rich_text: false,
             block_changes: true,
             probe_funds: false,
+            set_remove_bias: false,
         }
     }
 }
@@ -210,6 +214,14 @@ impl<'a> G<'a> {
                 _ => Action::Write(self.key(), vec![7]),
             };
             acts.push(a);
+        }
+        if self.cfg.set_remove_bias && self.rng.chance(1, 3) {
+            let k = self.key();
+            acts.push(Action::Write(k.clone(), vec![9]));
+            acts.push(Action::Remove(k.clone()));
+            if self.rng.chance(1, 4) {
+                acts.push(Action::Write(k, vec![8]));
+            }
         }
         if self.rng.below(100) < self.cfg.p_fail {
             return Prog { node, acts, out: Output::Fail };
